@@ -100,6 +100,21 @@ def msgacc_cell(P, A):
     try:
         if has_new:
             carried = [rich_story(i, c0, c1) if level == 'story' else rich_item(i, c0, c1) for i in src_ids]
+            ct = P.get('carried_timing')
+            if ct and level == 'story':
+                # timing metadata that is absent, blank or not a plain number: the message still names its stories
+                for st_ in carried:
+                    old_tb = st_.find('mosExternalMetadata')
+                    pos = list(st_).index(old_tb)
+                    st_.remove(old_tb)
+                    if ct == 'blank':
+                        st_.insert(pos, E('mosExternalMetadata', T('mosSchema', 'sch.story'),
+                                          E('mosPayload', T('StoryDuration', None), T('TextTime', None), T('MediaTime', None),
+                                            T('StoryStarted', None), T('StoryEnded', None))))
+                    elif ct == 'odd':
+                        st_.insert(pos, E('mosExternalMetadata', T('mosSchema', 'sch.story'),
+                                          E('mosPayload', T('StoryDuration', '00:01:30'), T('MediaTime', c1),
+                                            T('StoryStarted', c0))))
             from .h_payload import build_with
             root = build_with(op, tgt, carried, story_ref)
         else:
